@@ -237,6 +237,7 @@ def bounds(tier, seed):
             'b_boundary': '+-{2^j, 2^j-2^-f, 2^j+2^-f}, j in 0..39, f in {0,1,2,3,5,8,13,20}, j+f<40 (%d values) x same' % len(boundary_family()),
             'c_arrays': 'all ordered pairs%s from a 12-letter alphabet (list and ndarray carriers) x signedness x patterns'
                         % (' and triples' if tier != 'quick' else ' (triples: thorough tier)'),
+            'r_buffer_reuse': 'the same ndarray object rewritten in place between two constructions (all ordered letter pairs x 4 third letters)',
             'd_capped': 'doubles 1/k (k=3..64), 0.1*10^j, pi*2^j, (2^53-1)*2^e for e in -110..-40, int-part+tiny-fraction sums, seed extras; '
                         'arrays whose union needs more than 64 bits',
             'seed': seed}
@@ -253,6 +254,7 @@ def shards(tier, seed):
     for i in range(len(ARR_LETTERS)):
         out.append({'part': 'c', 'i': i, 'triples': tier != 'quick'})
     out.append({'part': 'd', 'seed': seed})
+    out.append({'part': 'r'})
     return out
 
 
@@ -289,6 +291,13 @@ def run_shard(sh):
                     for pat in patterns_for(ds, signed):
                         for carrier in ('list', 'ndarray'):
                             judge(acc, ds, sg, pat, carrier, 'c')
+    elif part == 'r':
+        for a in ARR_LETTERS:
+            for b in ARR_LETTERS:
+                for c in ARR_LETTERS[::3]:
+                    for sg in (None, False):
+                        judge_buffer_reuse(acc, [a, b], [b, c], sg, 'r')
+                        judge_buffer_reuse(acc, [c, a, b], [a, a, c], sg, 'r')
     elif part == 'd':
         fl = []
         for k in range(3, 65):
@@ -316,9 +325,40 @@ def run_shard(sh):
     return acc
 
 
+def judge_buffer_reuse(acc, v1, v2, signed_arg, part):
+    """the SAME ndarray object, modified in place between two constructions: the second inference must see the new values"""
+    d1, d2 = [norm(d) for d in v1], [norm(d) for d in v2]
+    signed = True if signed_arg is None else signed_arg
+    if not signed and any(d[0] < 0 for d in d1 + d2):
+        return
+    case = {'part': part, 'reuse': True, 'v1': [list(d) for d in d1], 'v2': [list(d) for d in d2], 'signed': signed_arg}
+    acc.evaluations += 2
+    acc.transitions += 2
+    acc.nontrivial += 1
+    kw = {} if signed_arg is None else {'signed': signed_arg}
+    try:
+        buf = np.array([dy_float(d) for d in d1], dtype=np.float64)
+        x1 = Fxp(buf, **kw)
+        buf[:] = [dy_float(d) for d in d2]
+        x2 = Fxp(buf, **kw)
+        x3 = Fxp(buf.copy(), **kw)
+    except Exception as e:
+        acc.violation('exception', case, 'buffer reuse %s -> %s raised %r' % (v1, v2, e), {'part': part, 'aspect': 'reuse'})
+        return
+    e1, e2 = infer(d1, signed), infer(d2, signed)
+    if fmt_of(x1) != e1 or fmt_of(x2) != e2 or fmt_of(x3) != e2 or flags(x2) != (False, False, False) \
+            or codes(x2) != [num << (e2.n_frac - sh) for num, sh in d2]:
+        acc.violation('reuse', case, 'Fxp(buf) %s then buf[:] = new values, Fxp(buf) gives %s codes %s flags %s; expected %s (a fresh copy gives %s)'
+                      % (x1.dtype, x2.dtype, codes(x2), flags(x2), e2.dtype, x3.dtype), {'part': part, 'aspect': 'reuse'})
+    acc.outcome('buffer_reuse_ok')
+
+
 def replay(case):
     reset_class_state()
     acc = Acc()
+    if case.get('reuse'):
+        judge_buffer_reuse(acc, [tuple(d) for d in case['v1']], [tuple(d) for d in case['v2']], case['signed'], case['part'])
+        return acc.violations
     if 'float' in case:
         judge_capped(acc, float.fromhex(case['float']), case['signed'], case['part'])
     elif 'floats' in case:
